@@ -176,12 +176,16 @@ EXACT_LISTS = [
     [P.EOFM], [P.lit('aa'), P.lit('aa')], [P.TMOM], [P.lit('n'), P.lit('bn')],
     # the alphabetically greatest string is not the longest one (look-back must be the LONGEST)
     [P.lit('b'), P.lit('aab')], [P.lit('ba'), P.lit('aaba'), P.lit('b')], [P.lit('n'), P.lit('abab')], [P.lit('bb'), P.lit('abaa')],
+    # an earlier-listed string lies strictly inside the occurrence of a longer, later-listed one that starts before it
+    [P.lit('a'), P.lit('bab')], [P.lit('b'), P.EOFM, P.lit('abaa')], [P.lit('ab'), P.lit('babb')], [P.lit('a'), P.lit('aa'), P.lit('baab')],
 ]
 RE_LISTS = [
     [P.lit('a')], [P.lit('ab'), P.lit('b')], [P.anyn(2)], [P.END], [P.star('a')],
     [P.plus('a'), P.lit('bb')], [P.alt('ab', 'b'), P.EOFM], [P.litend('b'), P.TMOM],
     [P.TMOM, P.lit('ba'), P.EOFM, P.lit('b')], [P.lit('n'), P.EOFM], [P.anyn(3), P.EOFM],
     [P.EOFM, P.TMOM], [P.lit('bab'), P.star('b')], [P.litend('ab'), P.lit('a')], [P.plus('b'), P.plus('a')],
+    # same start, different lengths, the longer one listed first / last; a shorter one inside a longer one that starts earlier
+    [P.lit('aba'), P.lit('ab')], [P.lit('ab'), P.lit('aba')], [P.lit('a'), P.lit('bab')], [P.plus('a'), P.lit('aab'), P.lit('a')],
 ]
 ALPHA2 = ['a', 'b']
 ALPHA3 = ['a', 'b', 'n']
